@@ -7,6 +7,8 @@ func GenScenario(prop string, verifSeed uint64, run int) *Scenario {
 		return GenC06(verifSeed, run)
 	case "C07":
 		return GenC07(verifSeed, run)
+	case "C10":
+		return GenC10(verifSeed, run)
 	case "C11":
 		return GenC11(verifSeed, run)
 	case "C12":
@@ -22,6 +24,8 @@ func RunScenario(rt *Runtime, sc *Scenario) RunResult {
 		return RunC06(rt, sc)
 	case "C07":
 		return RunC07(rt, sc)
+	case "C10":
+		return RunC10(rt, sc)
 	case "C11":
 		return RunC11(rt, sc)
 	case "C12":
